@@ -14,7 +14,7 @@ assert old in s, f"pattern not found: {old!r}"
 open(p, 'w').write(s.replace(old, new, 1))
 PY
 cd /verif
-PGV_REPO="$D/wt" PGV_NO_LEDGER_WRITE=1 timeout -k 5 1200 ./check "$PROP" > "$D/log" 2>&1 || true
+PGV_REPO="$D/wt" PGV_OUT="$D/out" timeout -k 5 1200 ./check "$PROP" > "$D/log" 2>&1 || true
 grep -E "^(VIOLATION|UNDECIDED|CHECKER-ERROR|KNOWN|C[0-9]+ \[)" "$D/log" | cut -c1-260 | head -${MUT_LINES:-6} | grep . || tail -5 "$D/log"
 git -C /repo worktree remove --force "$D/wt"
 rm -rf "$D"
